@@ -149,7 +149,7 @@ UNIT = dict(
     name="c18_ics20", mode="K", properties=["C18", "C04"],
     shim_files=["shims/common.rs", "shims/seq.rs"],
     prelude=PRELUDE,
-    use="use crate::accounts::StateWriteExt as _;\nuse crate::ibc_real::StateWriteExt as _;",
+    use="use crate::accounts::*;\nuse crate::ibc_real::StateWriteExt as _;",
     items=[
         dict(file=ACC, path="struct InsufficientFunds", module="accounts"),
         dict(file=ACC, path="trait StateWriteExt/fn increase_balance", module="accounts"),
@@ -173,7 +173,7 @@ UNIT = dict(
         dict(name="refund_to_sequencer_address_contract", obligation="ics20::refund_tokens_to_sequencer_address::ensures#escrow-released-exactly-iff-source-zone+credit-exact+frame"),
         dict(name="receive_tokens_success_accounting", obligation="ics20::receive_tokens::ensures#Ok=>escrow-and-credit-exact+deposit-iff-bridge+frame"),
         dict(name="canary_receive_tokens_ok_reachable", expect="fail"),
-        dict(name="receive_tokens_failure_has_no_side_effects", finding="F6", obligation="ics20::receive_tokens::ensures#Err=>no-balance-change-no-deposit-no-event",
+        dict(name="receive_tokens_failure_has_no_side_effects", finding="F6", only_for=["C18", "C04"], obligation="ics20::receive_tokens::ensures#Err=>no-balance-change-no-deposit-no-event",
              what="an incoming ICS-20 transfer to a bridge account caches the deposit (and records its event) before the escrow debit and the credit; if those fail (e.g. insufficient escrow, balance overflow) recv_packet_execute writes an error acknowledgement on the same state and the deposit stays although no funds moved"),
     ],
     assumptions=["A-store typed accessors over the symbolic store; packet data is carried pre-parsed (serde_json, bech32 and denom parsing trusted); emit_bridge_lock_deposit is an arbitrary-outcome stand-in that caches exactly one deposit on success",
